@@ -14,6 +14,8 @@ import CLModel.Proofs.C12BExample
 import CLModel.Proofs.C12AndroidGen
 import CLModel.Proofs.C12AClass
 import CLModel.Proofs.C12MozLaws
+import CLModel.Proofs.C12Heap
+import CLModel.Proofs.C11Obj
 namespace C12
 open Rx PM
 
@@ -817,5 +819,77 @@ theorem mozpath_parts (p : Text) :
 /-- leading dots of a file name are not an extension: splitext("a/.b") = ("a/.b", ""), splitext("a/..b.c") = ("a/..b", ".c") -/
 example : MP.splitext (T "a/.b") = (T "a/.b", []) ∧ MP.splitext (T "a/..b.c") = (T "a/..b", T ".c") ∧
     MP.normpath (T "a//./b/../c/") = T "a/c" ∧ MP.normpath (T "//x/..") = T "//" ∧ MP.normpath [] = T "." := by decide +kernel
+
+
+/-! ### round 5: the environment dict of a matcher OBJECT is state (`Paths/MatcherObj.lean`)
+
+`Variable.expand` expands the value of a variable against `_no_cycle(env)`, a COPY of the environment without the
+variable's own name.  In the heap model a dict is an address; the theorems say that the copy is what makes every
+call that only looks at a matcher leave it as it was - also when the nested expansion raises `MissingEnvironment`. -/
+
+/-- **Nested expansion never touches the dict it is given.**  For every pattern, `raise_missing`, heap and address `a`
+    holding the dict `env`: `pattern.expand(env, raise_missing)` answers what the stateless model answers for the CONTENTS
+    `env` - a text or an exception, `MissingEnvironment` out of any nesting depth included - and the heap afterwards is
+    the heap before plus newly allocated dicts: every dict that existed (the one at `a` in particular) is unchanged. -/
+theorem expand_leaves_env_untouched (p : Pattern) (rm : Bool) (h : Heap) (a : Addr) (env : Env) (hr : h[a]? = some env) :
+    ∃ ex, expandTopH p a rm h = some (expandPat (expandVal (fuelFor env)) p env rm, h ++ ex) :=
+  C12H.expandTopH_spec p rm hr
+
+/-- the same for `regex_pattern` (`_cache_regex`): the regex of the stateless model, nothing but allocations -/
+theorem regex_leaves_env_untouched (p : Pattern) (h : Heap) (a : Addr) (env : Env) (hr : h[a]? = some env) :
+    ∃ ex, regexOfH p a h = some (Matcher.regexOf { pattern := p, env := env }, h ++ ex) :=
+  C12H.regexOfH_spec p hr
+
+/-- `_no_cycle(env)` returns a dict holding `env` without the name and leaves `env` itself alone (it is `env` itself
+    only when the name is not in it) -/
+theorem no_cycle_copies (name : Text) (h : Heap) (a : Addr) (env : Env) (hr : h[a]? = some env) :
+    ∃ ex a1, noCycleH name a h = some (a1, h ++ ex) ∧ (h ++ ex)[a1]? = some (derase env name) ∧
+      (h ++ ex)[a]? = some env :=
+  let ⟨ex, a1, h1, h2⟩ := C12H.noCycleH_spec name hr
+  ⟨ex, a1, h1, h2, C12H.read_ext ex hr⟩
+
+/-- **readonly_ops_preserve_state.**  On a store of matcher objects, for an object `o` that looks like `c` from outside:
+    `prefix`, `str()`, `pattern.expand(env, raise_missing=True)`, `repr()` and `==` answer the stateless function of the
+    view(s) - a value OR an exception - and the store afterwards has the SAME objects (pattern, root, env address, cache)
+    and the same dicts at all existing addresses (`OnlyAllocates`); so every object looks as it did (last clause, for
+    every call of the class `Looks` and whatever it answers). -/
+theorem readonly_ops_preserve_state (s : Store) (o : Nat) (c : CMatcher) (hv : s.view o = some c) :
+    (∃ s', Store.prefix o s = some (liftX c.m.prefix, s') ∧ C11O.OnlyAllocates s s') ∧
+    (∃ s', Store.str o s = some (liftX c.m.str, s') ∧ C11O.OnlyAllocates s s') ∧
+    (∃ s', Store.expandRaise o s =
+        some (liftX (expandPat (expandVal (fuelFor c.m.env)) c.m.pattern c.m.env true), s') ∧ C11O.OnlyAllocates s s') ∧
+    Store.repr o s = some (.ok (), s) ∧
+    (∀ o2 c2, s.view o2 = some c2 → Store.eq o o2 s = some (.ok (Matcher.eq c.m c2.m, Matcher.ne c.m c2.m), s)) ∧
+    (∀ op, C11O.Looks op → ∀ r s', s.step op = some (r, s') →
+      s'.objs = s.objs ∧ (∃ ex, s'.heap = s.heap ++ ex) ∧ ∀ o' c', s.view o' = some c' → s'.view o' = some c') := by
+  refine ⟨C11O.prefix_spec hv, C11O.str_spec hv, C11O.expandRaise_spec hv, by simp [Store.repr, hv], ?_, ?_⟩
+  · intro o2 c2 hv2; simp [Store.eq, hv, hv2]
+  · intro op hq r s' h
+    have := C11O.looks_onlyAllocates hq h
+    exact ⟨this.1, this.2, fun o' c' hv' => C11O.view_onlyAllocates this hv'⟩
+
+/-- The history of the regression this round was about, on the model: `Matcher("{l}browser/**", {"l10n_base": "/l10n",
+    "l": "{l10n_base}/{locale}/"})`; `prefix`, `str()` (both "" - the nested expansion stops at the unbound `{locale}`),
+    `expand(raise_missing=True)` (MissingEnvironment); then `with_env({"locale": "de"})`: the derived matcher matches its
+    own file with `l = "/l10n/de/"`, not another locale's file, its prefix is "/l10n/de/browser/", and the source still
+    has both of its variables. -/
+def triggerHistory : List Op :=
+  [.new [] (T "{l}browser/**") [(T "l10n_base", T "/l10n"), (T "l", T "{l10n_base}/{locale}/")] none,
+   .prefix 0, .str 0, .expandRaise 0,
+   .rebuild 0 [(T "locale", T "de")] none,
+   .matchP 1 (T "/l10n/de/browser/x"), .matchP 1 (T "/l10n/fr/browser/x"), .prefix 1]
+
+def triggerCheck : Bool :=
+  match Store.empty.run triggerHistory with
+  | some ([.ok (.obj 0), .ok (.text []), .ok (.text []), .error (.py .missingEnv), .ok (.obj 1),
+           .ok (.groups (some d)), .ok (.groups none), .ok (.text pre)], s') =>
+    d.lookup (T "l") == some (some (T "/l10n/de/")) && d.lookup (T "s1") == some (some (T "x")) &&
+    pre == T "/l10n/de/browser/" &&
+    (match s'.view 0 with
+     | some c => c.m.env.map (·.1) == [T "l10n_base", T "l"]
+     | none => false)
+  | _ => false
+
+theorem readonly_trigger_example : triggerCheck = true := by decide +kernel
 
 end C12
